@@ -137,6 +137,8 @@ type KMS struct {
 	// EncInputs records a symbolic description of everything handed to EncryptKey.
 	EncInputs [][2]any
 	Outputs   [][]byte
+	// AfterCall, when set, runs as a KMS round trip completes (before the result is handed back): a harness uses it to let time pass
+	AfterCall func()
 }
 
 func (k *KMS) EncryptKey(ctx context.Context, b []byte) ([]byte, error) {
@@ -157,6 +159,9 @@ func (k *KMS) EncryptKey(ctx context.Context, b []byte) ([]byte, error) {
 	k.Outputs = append(k.Outputs, append([]byte(nil), out...))
 	k.mu.Unlock()
 	k.T.Add("KEnc", true)
+	if k.AfterCall != nil {
+		k.AfterCall()
+	}
 	return out, nil
 }
 
@@ -174,6 +179,9 @@ func (k *KMS) DecryptKey(ctx context.Context, b []byte) ([]byte, error) {
 	k.Retained = append(k.Retained, Retained{Where: "kms.DecryptKey", Buf: out, IsKey: true})
 	k.mu.Unlock()
 	k.T.Add("KDec", true)
+	if k.AfterCall != nil {
+		k.AfterCall()
+	}
 	return out, nil
 }
 
